@@ -443,7 +443,7 @@ def run(cx, rep):
 
 
 INTERIOR = re.compile(r"\b(RefCell|Cell|OnceCell|LazyCell|Mutex|RwLock|Atomic\w+|UnsafeCell|DashMap|OnceLock)\b")
-HANDLE_MUTATORS = re.compile(r"(Comments>::(take_|add_|move_)\w+|DashMap<[^>]*>::(insert|remove|clear|alter|alter_all|entry|get_mut|iter_mut|retain|remove_if|shrink_to_fit)|::borrow_mut|::get_or_init|::set|::replace|::swap|::take|::store|::fetch_\w+|::lock|::write)$")
+HANDLE_MUTATORS = re.compile(r"(Comments>?::(take_|add_|move_)\w+|DashMap<[^>]*>::(insert|remove|clear|alter|alter_all|entry|get_mut|iter_mut|retain|remove_if|shrink_to_fit)|::borrow_mut|::get_or_init|::set|::replace|::swap|::take|::store|::fetch_\w+|::lock|::write)$")
 
 
 def cached_modules_immutable_rule(cx, rep, rid):
